@@ -18,7 +18,7 @@ func runFault(prop string) *ShardResult {
 	thorough := *fTier == "thorough"
 	maxLen := 3
 	if thorough {
-		maxLen = 4
+		maxLen = 5
 	}
 	deadline := time.Now().Add(*fBudget)
 	cfgs := []core.Config{{SegSize: 128}, {SegSize: 64}, {SegSize: 4096}}
